@@ -677,9 +677,24 @@ def ts5(ctx, pid):
             if r not in (last, upd):
                 probs.append("blank node: returns `%s`" % tstr(r)[:40])
             continue
+        def unproven_empty():
+            for t, pol, _ in st.log:
+                tt, pp = truth_norm(t, pol)
+                if tt == unproven:
+                    return not pp
+            lo, hi = eng.len_of(unproven, st.facts)
+            return True if hi == 0 else (False if lo >= 1 else None)
         if r == upd:
             rows.setdefault(kind, set()).add("stop")
+            if kind == "BRANCH" and unproven_empty() is not True:
+                probs.append("branch: the walk stops at a branch although the key is not exhausted")
+            if kind == "EXT":
+                ck_ = ("call", NODES + "extract_key", (node,), ())
+                if not any(truth_norm(t, pol) == (("call", NODES + "key_starts_with", (unproven, ck_), ()), False) for t, pol, _ in st.log):
+                    probs.append("extension: the walk stops at an extension whose path the key does continue")
             continue
+        if kind == "BRANCH" and r[0] == "call" and r[1] == f.qual and unproven_empty() is not False:
+            probs.append("branch: the walk descends below a branch although the key is exhausted")
         if r[0] == "call" and r[1] == f.qual:
             args = r[2][1:]
             if len(args) < 4 or args[3] != upd:
@@ -1003,6 +1018,8 @@ def recount(ctx, pid):
             shape.add(tuple(shp))
         if shape != wr:
             probs.append((f.node, "a %s node pushes %s, expected %s" % (k.lower(), sorted(map(str, shape)), sorted(map(str, wr)))))
+    if any(isinstance(nd, ast.Break) for nd in ast.walk(f.node)):
+        probs.append((f.node, "the worklist loop is left by `break`: references still on the worklist are never counted"))
     c = "recount-table:HexaryTrie.regenerate_ref_count"
     if probs:
         node, why = probs[0]
